@@ -149,7 +149,8 @@ def runEdit (toks : List String) : List String :=
       let encs := (out.2.filter (fun r => match r with | .encoded .. => true | _ => false)).zipIdx
       -- the invariant is proved inductive (Lemmas/Preserve.lean): it is checked on the state built from the parsed module
       -- (hypothesis of `stInv_of_parsed`); the check in front of the first encode is kept as a cross-check of the model
-      let inv0 := stInvB s0 && s0.f.items.all (fun it => !it.del) && s0.g.items.all (fun it => !it.del) && s0.m.items.all (fun it => !it.del)
+      -- and the initial state must have the shape the parser builds (`parsedStateB`; `stInv_of_parsedStateB`, Lemmas/Parsed.lean)
+      let inv0 := stInvB s0 && s0.f.items.all (fun it => !it.del) && s0.g.items.all (fun it => !it.del) && s0.m.items.all (fun it => !it.del) && parsedStateB s0
       let invLine := s!"edit {case} inv={showStrs (((inv0 :: outI.2).take 2).map (fun b => if b then "ok" else "VIOLATED"))}"
       let tagged := (ops.take out.2.length).zip out.2
       let retLine (c : Nat) (nm : String) : String :=
